@@ -371,6 +371,10 @@ func (jit *JITCompiler) InvalidateCache(name string) {
 	jit.unitsMux.Lock()
 	delete(jit.units, name)
 	jit.unitsMux.Unlock()
+
+	// Type-specialized variants were compiled from the same definition and
+	// are just as stale.
+	jit.specializationCache.InvalidateSpecializations(name)
 }
 
 // ClearCache removes all compilation units from the cache
@@ -378,6 +382,8 @@ func (jit *JITCompiler) ClearCache() {
 	jit.unitsMux.Lock()
 	jit.units = make(map[string]*CompilationUnit)
 	jit.unitsMux.Unlock()
+
+	jit.specializationCache.Clear()
 }
 
 // GetProfiler returns the profiler instance
